@@ -7,7 +7,7 @@ from vlib import gen as G
 ID = "C14"
 PROP_FILE = "Props/C14.v"
 RULE = ("enums with 1-8 variants x kinds x {message, detailed_message} presence (all four combinations) x 0-4 doc lines (0-3 "
-        "leading spaces, empty lines, quotes, braces, non-ASCII, a block comment rendered as one multi-line doc attribute; docs "
+        "leading spaces, leading tab / NBSP / U+3000 / CR / newline (kept), empty lines, quotes, braces, non-ASCII, a block comment rendered as one multi-line doc attribute; docs "
         "interleaved with #[strum] attributes) x naming attributes x serialize_all x disabled placement (including enums where "
         "EVERY variant has a message, so that no wildcard arm is emitted). For every value the four getters are compared with the "
         "model. non-trivial = distinct (definition, value)")
@@ -15,7 +15,10 @@ ASSUMPTIONS = ["zero-variant enums are excluded: the derive emits `match self {}
                "quantifies over variant values, of which there are none"]
 
 DOCS = [[], ["One line."], [" leading space"], ["  two spaces"], ["   three"], [" first", " second"], [" a", "", " c"],
-        ["no space", " space", "  two"], [" \"quoted\" {braces} é"], [" block line 1\n line 2\n"], ["", ""], [" x", " y", " z", " w"]]
+        ["no space", " space", "  two"], [" \"quoted\" {braces} é"], [" block line 1\n line 2\n"], ["", ""], [" x", " y", " z", " w"],
+        # leading whitespace that is NOT U+0020 must be kept: tab, NBSP, ideographic space, CR, the "\n" a block comment starts with
+        ["\tleading tab"], ["\u00a0nbsp"], ["\u3000ideographic", "\ttab", " space"], ["\n     * block comment\n     "], [" \tspace then tab"],
+        ["\rcr", "\u2003em space"]]
 
 
 def build_corpus(tier, rng):
@@ -49,7 +52,10 @@ def build_corpus(tier, rng):
                     docs = [doc(x) for x in d]
                     mixed = docs[:1] + ms + docs[1:]
                     if dis_pos is not None and i % 6 == dis_pos:
-                        mixed.append(DISABLED)
+                        if (n // 6) % 2:
+                            mixed.insert(1 if docs else 0, DISABLED)      # `disabled` BEFORE the naming attributes
+                        else:
+                            mixed.append(DISABLED)
                     v.metas = mixed
                     vs.append(v)
                 for j in range(0, len(vs), 6):
